@@ -982,6 +982,9 @@ func poolCorpus() []poolScenario {
 	// D12: a housekeeping pass between getConn and the registration of the call, on a connection about to go stale
 	mk("pass-inside-the-handout-window", 1, 1, "call A 1", "idle almost", "hookget A 2", "idle gap", "hookrel 2", "idle long", "finish 2", "idle long")
 	mk("pass-inside-the-handout-window-2", 2, 2, "call A 1", "call B 2", "idle almost", "hookget A 3", "idle gap", "hookrel 3", "call B 4", "idle long", "finish 3", "call A 5", "idle long")
+	// the same window on the path that takes the connection from the idle queue (no active entry for the address)
+	mk("pass-inside-the-handout-window-idle-path", 1, 1, "call A 1", "idle medium", "hookget A 2", "idle gap", "hookrel 2", "idle long", "finish 2", "idle long")
+	mk("pass-inside-the-handout-window-idle-path-2", 2, 2, "call A 1", "call B 2", "idle medium", "hookget B 3", "idle gap", "hookrel 3", "closeidle", "call A 4", "finish 3", "idle long")
 	mk("open-stream-keeps-its-connection", 2, 2, "lstream A 1", "idle medium", "idle long", "closeidle", "call A 2", "finish 1", "idle long")
 	mk("close-with-several-idle", 3, 3, "long A 1", "long A 2", "long A 3", "finish 1", "finish 2", "finish 3", "idle medium", "close", "idle short")
 	mk("close-with-several-idle-2", 2, 2, "long A 1", "long A 2", "long B 3", "long B 4", "finish 1", "finish 2", "finish 3", "finish 4", "idle medium", "close")
